@@ -739,7 +739,7 @@ def solver_e2e_job(job):
         L = [(-1 if not onp.isfinite(l) and onp.isnan(l) else int(round(l))) for _, l in cands]
         inb = [bool(onp.all(p >= lo - 1e-6) and onp.all(p <= hi + 1e-6)) for p, _ in cands]
         b = it["state_best"]
-        best = 1000000 if not onp.isfinite(b) else int(round(b))
+        best = 1000000 if (not onp.isfinite(b) or abs(b) > 1e30) else int(round(b))   # evosax starts best_fitness at float32 max: 'nothing finite yet'
         member_ok = any(onp.allclose(p, it["best_member"], atol=1e-6) and (onp.isfinite(l) and int(round(l)) == best) for p, l in seen[: it["n1"]])
         tr.append(dict(losses=L, inbounds=inb, best=best, member_ok=bool(member_ok)))
     return dict(trace=dict(id=f"{job['id']}", iters=tr), meta=dict(solver=kind, strategy=(strat if kind == "evo" else "cem"), dim=D,
